@@ -129,7 +129,7 @@ class Boolean(Primitive):
 
     def validate(self, val):
         if not isinstance(val, bool):
-            raise ValidationError('%r is not a valid boolean' % val)
+            raise ValidationError('%r is not a valid boolean' % (val,))
         return val
 
 
